@@ -2,8 +2,11 @@ def fill(chk, not_yet):
     chk("C01", "exploration",
         "Exact flow conservation max|pi K - pi| <= 1e-9 of the real ParticleGibbsTreeSampler over every start tree of "
         "small instances (n<=3), with K obtained by replaying every outcome of every random draw; both wirings, three "
-        "proposals, outliers on/off, thresholds 0/0.5/1, N in {2,3}; Monte-Carlo cross-check with numpy's Generator on "
-        "n<=4, N<=10. Exhaustive over random outcomes within each listed instance; bounded instances, not a proof.",
+        "proposals, outliers on/off, thresholds 0/0.5/1, N in {2,3}, plus call-history configurations (same kernel warmed "
+        "under another concentration value that is then changed in place, caches kept); extended-target consistency on "
+        "trees of 5-7 points (order density used in the weights vs the observed exact law of the order, per order, across "
+        "trees); Monte-Carlo cross-check with numpy's Generator on n<=5, N<=10 (per tree and per shape class). Exhaustive "
+        "over random outcomes within each listed instance; bounded instances, not a proof.",
         "pi is the code's own log_p_one (tied to the model by C03); ChoiceRNG's model of numpy draws (cross-checked "
         "statistically); numpy/scipy/rustworkx as installed.",
         "runtime monitoring: exhaustive replay of random draws of the real sampler + exact invariance oracle; Monte-Carlo binomial test",
@@ -11,8 +14,9 @@ def fill(chk, not_yet):
     chk("C04", "exploration",
         "Exact flow conservation max|pi K - pi| <= 1e-9 of the real DataPointSampler, PruneRegraphSampler and "
         "ParticleGibbsSubtreeSampler over every start tree of small instances (n<=3; n<=4 thorough for the Gibbs moves), "
-        "K by replaying every outcome of every random draw. For the subtree move a recomposition of the documented "
-        "algorithm from the real conditional-SMC swarm classifies the known finding F7 (block selection) and nothing else.",
+        "K by replaying every outcome of every random draw; one iteration of the run loop's own sweep (n<=2). For the "
+        "subtree move a recomposition of the documented algorithm (block extracted abstractly, real conditional-SMC "
+        "swarm) classifies the known finding F7 (block selection) and nothing else.",
         "pi is the code's own log_p_one; ChoiceRNG's model of numpy draws; bounded instances.",
         "runtime monitoring: exhaustive replay of random draws of the real moves + exact invariance oracle",
         "DESIGN.md 4/C04, 5 (F7)")
@@ -20,7 +24,9 @@ def fill(chk, not_yet):
         "For every parent state over <=3 (thorough <=4) earlier points, 3 proposals, outlier proposal on/off, permutation "
         "density on/off: log_p over every reference placement sums to 1 (1e-9), exact law of sample() (replay) equals the "
         "reported probabilities, support = reference placements; real SMCSampler under exhaustive replay reproduces "
-        "exp(log_p_one+log_pdf) of every compatible tree as expected weight mass (exact importance-sampling identity).",
+        "exp(log_p_one+log_pdf) of every compatible tree as expected weight mass (exact importance-sampling identity), "
+        "also after a pass under another concentration value (in-place change, caches kept); incremental weights along "
+        "the retained path of the real conditional sampler on random trees up to 8 points.",
         "target density from the code on freshly built trees (C03); order counts from the reference model (C09); "
         "normalising constants dropped by the sampler are re-added by a recording subclass.",
         "runtime monitoring: reference enumeration of placements + exhaustive replay of proposal and SMC draws",
@@ -35,8 +41,10 @@ def fill(chk, not_yet):
     chk("C06", "exploration",
         "rebuild_equal after every edit of generated histories in the samplers' own grammar (SMC placement with dict hop, "
         "data-point move, prune-regraft, subtree extraction/re-attachment with carried outliers, relabel, copy, dict/"
-        "pickle round trips): every clone's vectors, root vector, both densities, ==/hash against a fresh bottom-up "
-        "build; alias guard re-digests source trees. Held on the histories generated, not a proof.",
+        "pickle round trips) and on the intermediate states the samplers pass through (after pruning, after grafting "
+        "before the full update): every clone's vectors, root vector, both densities, ==/hash against a fresh bottom-up "
+        "build; alias guard re-digests source trees and second candidates grafted from the same subtree; the same oracle "
+        "as a postcondition of every real sampler's sample_tree. Held on the histories generated, not a proof.",
         "tolerance 1e-8 relative; deviations confined to entries outside the C02 underflow window (band from the "
         "interval reference recursion wider than 1e-9) are counted, not reported - the property's own quantifier.",
         "runtime monitoring: invariant-at-a-hook (rebuild oracle) over generated edit histories",
@@ -159,16 +167,20 @@ def fill(chk, not_yet):
         "Real `phyclone run --seed S` subprocesses (3 configurations quick, 15 thorough: proposal x outliers x clustered x "
         "1/2/4 chains), each under a reference environment and perturbed ones - PYTHONHASHSEED 1/12345/random, one core "
         "(taskset), nice, concurrent load, and sitecustomize failpoints that hold chain k's return until named chains "
-        "have finished (reversed / rotated completion order): per chain exact equality of iter, alpha bits, log_p_one "
-        "bits, canonical tree and labels. Evidence lists completion orders and hash seeds actually observed; a multi-"
-        "chain configuration with a single observed order is inconclusive.",
+        "have finished (ascending / descending completion order forced): per chain exact equality of iter, alpha bits, "
+        "log_p_one bits, canonical tree and labels; a longer 3-chain run on branching data under all / one / two cores; "
+        "child interpreters with different PYTHONHASHSEED running the same seeded chain on string-named data; in-process "
+        "pairs of the same seeded chain under different ambient random state (numpy global state, random module). "
+        "Evidence lists completion orders and hash seeds actually observed; a multi-chain configuration with a single "
+        "observed order is inconclusive.",
         "time entries excluded; same machine and libraries across compared runs; schedules explored are those the "
         "failpoints and the OS produced, not all.",
         "runtime monitoring: differential traces of real processes under perturbed schedules / hash seeds (failpoint-ordered chain completion)",
         "DESIGN.md 4/C18")
     chk("C20", "fault_enumeration",
         "Every byte prefix of trace files written by the real writer from real chain runs (1 chain unclustered, 3 chains "
-        "clustered; thorough +2) is read by map, consensus and topology-report in-process: the reader raises or its "
+        "clustered; thorough +2; a 1100-entry trace at a stride of prefixes plus head and tail in the quick tier, every "
+        "prefix in the thorough tier) is read by map, consensus and topology-report in-process: the reader raises or its "
         "output files are byte-identical to the complete file's. Plus real `phyclone run` processes whose final write is "
         "cut at byte N by a failpoint (os._exit / ENOSPC), read back by the real CLI (non-zero exit or identical output; "
         "the run itself must not exit 0). Exhaustive over crash points of the traces used.",
